@@ -7,7 +7,8 @@
                      (a PD entry only with rest = []: pd_swallows_rest)
      entry_layout    b = sig_of e ++ [zlen b; 1] ++ payload, 4 <= zlen b <= 255
      entry_static_len  zlen b = the class's static length()
-     refuted: sl_plain_dot_length_refuted, sl_factory_dot_roundtrip_refuted, sf_high_without_depth_refuted,
+     refuted: sl_factory_dot_roundtrip_refuted (sl_plain_dot_length_refuted is gone with the repair of
+              current_length(): Example sl_plain_dot_roundtrip), sf_high_without_depth_refuted,
               px_serial_dropped_refuted, pd_swallows_rest
      tf_length_popcount  for all 256 flag bytes: length(flags) = 5 + (7|17) * #(bits 0..6 set) <= 124 (sweep)
      tf_roundtrip     flags any byte, date contents universally quantified (7 or 17 bytes each, present
@@ -294,7 +295,7 @@ Qed.
 
 Lemma sl_comp_facts c : sl_comp_ok c = true ->
   sl_comp_enc c = raw c /\ comp_wf sl_comp_init_ok c /\ sl_comp_packable c = true /\
-  zlen (raw c) = sl_comp_length (comp_name c).
+  zlen (raw c) = comp_recorded_length c.
 Proof.
   destruct c as [fl ln d]. unfold sl_comp_ok. cbn [c_flags c_len c_data]. intros H.
   apply orb_prop in H. destruct H as [H|H]; rewrite !andb_true_iff in H.
@@ -302,18 +303,18 @@ Proof.
     assert (ln = 0) by lia. subst ln.
     assert (E : fl = 2 \/ fl = 4 \/ fl = 8) by (unfold mem_z in Hf; cbn in Hf; lia).
     destruct E as [-> | [-> | ->]]; repeat split; reflexivity.
-  - destruct H as (((Hf & Hl) & Hu) & Hs). apply negb_true_iff in Hs.
+  - destruct H as ((Hf & Hl) & Hu).
     destruct (flags01 fl Hf) as (F1 & F2 & F3 & Fm & Fu).
-    unfold sl_comp_enc, comp_wf, sl_comp_packable, comp_name, sl_comp_init_ok, raw, sl_comp_length.
-    cbn [c_flags c_len c_data]. rewrite F1, F2, F3, Fm, Fu, Hu, Hs. cbn [orb andb negb].
+    unfold sl_comp_enc, comp_wf, sl_comp_packable, comp_recorded_length, sl_comp_init_ok, raw.
+    cbn [c_flags c_len c_data]. rewrite F1, F2, F3, Fm, Fu, Hu. cbn [orb andb negb].
     repeat split; try reflexivity; try lia.
-    rewrite zlen_app. reflexivity.
+    rewrite zlen_app. change (zlen [fl; ln]) with 2. lia.
 Qed.
 
 Lemma sl_comps_facts cs : forallb sl_comp_ok cs = true ->
   map sl_comp_enc cs = map raw cs /\ Forall (comp_wf sl_comp_init_ok) cs /\
   forallb sl_comp_packable cs = true /\
-  zlen (concat (map raw cs)) = fold_right (fun n acc => sl_comp_length n + acc) 0 (map comp_name cs).
+  zlen (concat (map raw cs)) = fold_right (fun c acc => comp_recorded_length c + acc) 0 cs.
 Proof.
   induction cs as [|c cs IH]; intros H; [repeat split; constructor|].
   cbn [forallb] in H. apply andb_prop in H. destruct H as [Hc H].
@@ -339,7 +340,7 @@ Proof.
   intros H. unfold sl_ok in H. rewrite !andb_true_iff in H. destruct H as ((Hf & Hc) & Hl).
   destruct (sl_comps_facts _ Hc) as (E1 & E2 & E3 & E4).
   assert (Hcur : sl_current_length s = 5 + zlen (concat (map raw (sl_comps s)))).
-  { unfold sl_current_length, len_sl. rewrite fold_left_sum, E4. reflexivity. }
+  { unfold sl_current_length. rewrite fold_left_sum, E4. reflexivity. }
   pose proof (zlen_nonneg (concat (map raw (sl_comps s)))) as P.
   assert (U : u8_ok (sl_current_length s) = true) by (unfold u8_ok; lia).
   unfold rec_sl. rewrite U, Hf, E3. split; [reflexivity|].
@@ -592,11 +593,9 @@ Proof.
   - destruct (sl_roundtrip s [] H) as (R' & _ & Hz). rewrite R' in R. apply some_inv in R. subst b.
     unfold sl_ok in H. rewrite !andb_true_iff in H. destruct H as (_ & H).
     assert (5 <= sl_current_length s).
-    { unfold sl_current_length, len_sl. rewrite fold_left_sum.
-      assert (forall l, 0 <= fold_right (fun n acc => sl_comp_length n + acc) 0 l).
-      { induction l as [|x l IH]; cbn; [lia|]. unfold sl_comp_length at 1.
-        pose proof (zlen_nonneg x). destruct (is_special x); lia. }
-      specialize (H0 (map comp_name (sl_comps s))). lia. }
+    { rewrite <- Hz. unfold enc_sl. rewrite zlen_app.
+      pose proof (zlen_nonneg (concat (map sl_comp_enc (sl_comps s)))).
+      change (zlen (sig_SL ++ _)) with 5. lia. }
     eapply (G (sl_current_length s)); [reflexivity|exact Hz|lia|reflexivity].
   - destruct (nm_roundtrip n [] H) as [R' _]. rewrite R' in R. apply some_inv in R. subst b.
     unfold nm_ok in H. rewrite !andb_true_iff in H. destruct H as (((_ & H) & _) & _).
@@ -644,14 +643,14 @@ Proof.
 Qed.
 
 (* ---- what the range predicates exclude, by counterexample (all reproduced on the real library) ---- *)
-(* a plain component whose data spells "." is counted as 2 bytes by current_length() but written as 3:
-   the length byte of the re-recorded entry is wrong; such an object is what parse() itself produces *)
-Theorem sl_plain_dot_length_refuted :
-  exists area s b, parse_sl area = Some s /\ rec_sl s = Some b /\ b <> area /\ nth 2 b 0 <> zlen b.
-Proof.
-  exists [83; 76; 8; 1; 0; 0; 1; 46], (mk_sl 0 [mk_comp 0 1 [46]]), [83; 76; 7; 1; 0; 0; 1; 46].
-  repeat split; try reflexivity; vm_compute; discriminate.
-Qed.
+(* a plain component whose data spells "." (what parse() produces for the slice "." of a longer name, and what
+   factory(b'.', literal=True) builds) is counted by recorded_length() with the 3 bytes record() writes: such an
+   entry re-records to itself (before the repair of current_length() its length byte came out as 7) *)
+Example sl_plain_dot_roundtrip :
+  let area := [83; 76; 8; 1; 0; 0; 1; 46] in
+  parse_sl area = Some (mk_sl 0 [mk_comp 0 1 [46]]) /\ rec_sl (mk_sl 0 [mk_comp 0 1 [46]]) = Some area /\
+  sl_ok (mk_sl 0 [mk_comp 0 1 [46]]) = true.
+Proof. repeat split. Qed.
 (* Component.factory(b'.') keeps data = b'.', parse() of its record has data = b'' *)
 Theorem sl_factory_dot_roundtrip_refuted :
   exists s b s', rec_sl s = Some b /\ parse_sl b = Some s' /\ s' <> s /\
@@ -678,6 +677,5 @@ Print Assumptions sl_roundtrip.
 Print Assumptions al_roundtrip.
 Print Assumptions px_roundtrip.
 Print Assumptions pd_swallows_rest.
-Print Assumptions sl_plain_dot_length_refuted.
 Print Assumptions sl_factory_dot_roundtrip_refuted.
 Print Assumptions sf_high_without_depth_refuted.
